@@ -99,7 +99,9 @@ class Ctx:
                 new.append(v)
         for v in listed:
             print("KNOWN-FINDING: property=%s %s :: %s" % (self.prop, v["key"], v["msg"]))
-        replay_dir = os.path.join(VERIF, "evidence", "replay")
+        # runs against a scratch copy (mutant testing, CTAP_REPO=...) must never overwrite the evidence of /repo
+        evdir = os.path.join(VERIF, "evidence") if extract.REPO == "/repo" else os.path.join(extract.BUILD, "scratch-evidence")
+        replay_dir = os.path.join(evdir, "replay")
         os.makedirs(replay_dir, exist_ok=True)
         # remove stale replay files of this property
         for fn in os.listdir(replay_dir):
@@ -141,8 +143,8 @@ class Ctx:
             "wall_s": round(wall, 3),
             "violations": len(new),
         }
-        os.makedirs(os.path.join(VERIF, "evidence"), exist_ok=True)
-        with open(os.path.join(VERIF, "evidence", self.prop + ".json"), "w") as f:
+        os.makedirs(evdir, exist_ok=True)
+        with open(os.path.join(evdir, self.prop + ".json"), "w") as f:
             json.dump(ev, f, indent=1)
         print("%s: %d obligations, %d discharged, %d violations (%d known), %d configurations, %.1fs" % (
             self.prop, self.obligations, self.discharged, len(new), len(listed), len(self.cfgs), wall))
